@@ -292,7 +292,7 @@ def memoised_mutable(fn_node: ast.AST) -> str | None:
     for d in getattr(fn_node, "decorator_list", []):
         head = d.func if isinstance(d, ast.Call) else d
         name = X.U(head)
-        if name in _MEMO_DECORATORS and not _immutable_annotation(getattr(fn_node, "returns", None)):
+        if (name in _MEMO_DECORATORS or name.rsplit(".", 1)[-1] in ("lru_cache", "cache", "cached_property")) and not _immutable_annotation(getattr(fn_node, "returns", None)):
             return X.U(d)
     return None
 
@@ -529,7 +529,7 @@ def make_state_rule(prop: str, rule_id: str, prefixes: list[str]):
                     ref_decos.remove(t_)
                     continue
                 head = X.U(d_.func) if isinstance(d_, ast.Call) else t_
-                if head in SAFE_DECORATORS or head in _MEMO_DECORATORS:
+                if head in SAFE_DECORATORS or head in _MEMO_DECORATORS or head.rsplit(".", 1)[-1] in ("lru_cache", "cache", "cached_property"):
                     continue
                 target = None
                 try:
